@@ -169,37 +169,12 @@ def run(chk, prog):
                                % (tok, adt.rsplit('::', 1)[-1], v), f.loc(0))
         chk.floor(RD, 'compiler operator-token rows', n, 12)
 
-    # ---- origins of a list value are a function of the value, not of its history
-    RE = 'C07.origins-recomputed-on-push'
-    chk.rule(RE, 'StoryState::push_evaluation_stack rebuilds the origins of a list value from its items / origin names: every '
-             'push onto InkList::origins there is dominated by a clear of the same vector (or the vector is replaced). '
-             'Origins that are only ever added to survive a difference that removed their last item (from_other_list copies '
-             'them), and LIST_ALL / LIST_INVERT of two equal list values then differ with how each was built.')
-    pe = prog.fn('StoryState::push_evaluation_stack')
-    if chk.anchor(RE, 'StoryState::push_evaluation_stack', pe):
-        from analysis.cfg import cfg as _cfg
-        pushes, clears = [], []
-        fns_ = prog.with_closures(pe)
-        for g_ in fns_:
-            for bb, t in g_.calls():
-                cs = callee_short(t)
-                if t['args'] and 'field:InkList::origins' in tr.prov(g_, t['args'][0]):
-                    if cs in ('Vec::push', 'Vec::extend', 'Vec::insert', 'Vec::append', 'Vec::extend_from_slice'):
-                        pushes.append((g_, bb))
-                    elif cs in ('Vec::clear', 'Vec::truncate', 'RefCell::replace', 'RefCell::take', 'mem::take',
-                                'mem::replace', 'Vec::drain'):
-                        clears.append((g_, bb))
-            for bb, si, s in g_.stmts():
-                if s['k'] == 'assign' and s['pl'].get('p') and s['pl']['p'][-1].get('n') == 'origins':
-                    clears.append((g_, bb))
-        if chk.anchor(RE, 'origins resolved (pushed) in push_evaluation_stack', pushes):
-            for i, (g_, bb) in enumerate(pushes):
-                gg = _cfg(g_)
-                ok = any(cg is g_ and gg.dominates(cb, bb) for cg, cb in clears) or \
-                    (g_.parent and any(cg is pe for cg, cb in clears))
-                chk.decide(RE, chk.key(RE, 'push', '#%d' % i), bool(ok), 'preceded by a clear on every path',
-                           'push_evaluation_stack adds to the origins of a list value without emptying them first: origins '
-                           'accumulate along the value\'s history instead of being a function of its items', g_.loc(bb))
+    origins_rebuilt_on_push(chk, prog, tr, 'C07.origins-recomputed-on-push',
+                            'StoryState::push_evaluation_stack rebuilds the origins of a list value from its items / origin '
+                            'names: every push onto InkList::origins there is dominated by a clear of the same vector (or the '
+                            'vector is replaced). Origins that are only ever added to survive a difference that removed their '
+                            'last item (from_other_list copies them), and LIST_ALL / LIST_INVERT of two equal list values then '
+                            'differ with how each was built.')
 
     # ---- list + int / list - int steps every item inside its own list
     RF = 'C07.item-stepped-in-its-own-list'
@@ -233,3 +208,32 @@ def run(chk, prog):
                            'call_list_increment_operation steps an item in a list definition that is not selected by the '
                            'item\'s own origin name (selected by predicate: %s; name comparison present: %s)'
                            % (selected, cmp_ok), g_.loc(bb))
+
+
+def origins_rebuilt_on_push(chk, prog, tr, RE, text):
+    chk.rule(RE, text)
+    pe = prog.fn('StoryState::push_evaluation_stack')
+    if chk.anchor(RE, 'StoryState::push_evaluation_stack', pe):
+        from analysis.cfg import cfg as _cfg
+        pushes, clears = [], []
+        fns_ = prog.with_closures(pe)
+        for g_ in fns_:
+            for bb, t in g_.calls():
+                cs = callee_short(t)
+                if t['args'] and 'field:InkList::origins' in tr.prov(g_, t['args'][0]):
+                    if cs in ('Vec::push', 'Vec::extend', 'Vec::insert', 'Vec::append', 'Vec::extend_from_slice'):
+                        pushes.append((g_, bb))
+                    elif cs in ('Vec::clear', 'Vec::truncate', 'RefCell::replace', 'RefCell::take', 'mem::take',
+                                'mem::replace', 'Vec::drain'):
+                        clears.append((g_, bb))
+            for bb, si, s in g_.stmts():
+                if s['k'] == 'assign' and s['pl'].get('p') and s['pl']['p'][-1].get('n') == 'origins':
+                    clears.append((g_, bb))
+        if chk.anchor(RE, 'origins resolved (pushed) in push_evaluation_stack', pushes):
+            for i, (g_, bb) in enumerate(pushes):
+                gg = _cfg(g_)
+                ok = any(cg is g_ and gg.dominates(cb, bb) for cg, cb in clears) or \
+                    (g_.parent and any(cg is pe for cg, cb in clears))
+                chk.decide(RE, chk.key(RE, 'push', '#%d' % i), bool(ok), 'preceded by a clear on every path',
+                           'push_evaluation_stack adds to the origins of a list value without emptying them first: origins '
+                           'accumulate along the value\'s history instead of being a function of its items', g_.loc(bb))
